@@ -15,10 +15,13 @@ const STUB_COMMON: &[&str] = &[
 ];
 
 fn b(name: &'static str, f: fn(), quick: u64, thorough: u64) -> Batch {
-    Batch { name, f, quick, thorough, heavy: false }
+    Batch { name, f, quick, thorough, heavy: false, grid: 0 }
+}
+fn grid(name: &'static str, f: fn(), cells: u64, quick_rounds: u64, thorough_rounds: u64) -> Batch {
+    Batch { name, f, quick: cells * quick_rounds, thorough: cells * thorough_rounds, heavy: false, grid: cells }
 }
 fn heavy(name: &'static str, f: fn(), quick: u64, thorough: u64) -> Batch {
-    Batch { name, f, quick, thorough, heavy: true }
+    Batch { name, f, quick, thorough, heavy: true, grid: 0 }
 }
 
 pub fn spec(id: &str) -> Option<Spec> {
@@ -77,12 +80,32 @@ pub fn spec(id: &str) -> Option<Spec> {
             real: REAL_QUEUE.to_vec(),
             stubbed: STUB_COMMON.to_vec(),
         },
+        "C06" => Spec {
+            id: "C06",
+            level: "exploration",
+            rule: "grid of 16 queue sizes x {modern, legacy} x 8 flag combinations x 5 transport answers (free, in use, max=SIZE, max=SIZE/2, max=0) = 1280 cells, each cell visited in every round (run i -> cell i mod 1280; exhaustive for the grid), seed varies DMA placement, queue index and second-allocation failure; distinct = distinct event-log hash; non-trivial = creation succeeded (full layout oracle ran) or failed at the second allocation",
+            batches: vec![grid("grid", scen::c06::grid_run, scen::c06::GRID, 3, 40)],
+            extras: vec![],
+            assumptions: vec!["real MMIO/PCI transports are covered by C10/C11 scenarios; here the transport is the model transport"],
+            real: vec!["virtio_drivers::queue::VirtQueue::new, VirtQueueLayout::allocate_legacy/allocate_flexible, queue_part_sizes, Dma::new/Drop"],
+            stubbed: STUB_COMMON.to_vec(),
+        },
+        "C10" => Spec {
+            id: "C10",
+            level: "exploration",
+            rule: "random operation sequences (every Transport method, random queue index / size / 64-bit address triple / feature word / status / interrupt status) on the real MmioTransport and SomeTransport::Mmio over a register-level reference device, legacy and modern, with QueueReady clearing up to 3 reads late; random header words and region sizes at probe time; distinct = distinct event-log hash; non-trivial = at least one queue_set executed (ops batch) or an acceptable header (probe batch)",
+            batches: vec![b("ops", scen::c10::ops_run, 20_000, 400_000), b("probe", scen::c10::probe_run, 20_000, 400_000)],
+            extras: vec![],
+            assumptions: vec!["register semantics transcribed from VirtIO 1.2 section 4.2.2 / 4.2.4 (DESIGN appendix A)", "DRIVER_OK is never set in this scenario; queue addresses are arbitrary numbers"],
+            real: vec!["virtio_drivers::transport::mmio::MmioTransport (all Transport methods, new, Drop)", "virtio_drivers::transport::SomeTransport (Mmio variant)", "safe-mmio field!/read/write paths (through the custom-mmio seam)"],
+            stubbed: vec!["device: register-level virtio-mmio reference device (sim/src/mmio.rs)", "no virtqueue traffic in this scenario"],
+        },
         _ => return None,
     };
     Some(s)
 }
 
-pub const ALL: &[&str] = &["C01", "C02", "C03", "C04", "C05"];
+pub const ALL: &[&str] = &["C01", "C02", "C03", "C04", "C05", "C06", "C10"];
 
 pub fn find_batch(prop: &str, batch: &str) -> Option<fn()> {
     spec(prop)?.batches.iter().find(|b| b.name == batch).map(|b| b.f)
